@@ -298,6 +298,57 @@ let run_batch payload =
        L (A "results" :: List.map sx_of_r rs)]
   | _ -> failwith "batch payload"
 
+(* ---- valops: (vals v...) (probes p...) ---- *)
+let raw_values = function
+  | L (A _ :: vs) -> List.map value_of_sx vs
+  | _ -> failwith "bad value list"
+let bit b = A (if b then "1" else "0")
+
+let run_valops payload =
+  match payload with
+  | [vals; probes] ->
+    let vs = raw_values vals and ps = raw_values probes in
+    let s = mk_set vs in
+    let members = (match s with VSet l -> l | _ -> []) in
+    L [L [A "len"; A (string_of_int (List.length members))];
+       L (A "contains" :: List.map (fun p -> bit (vmem p members)) ps);
+       L [A "eqrev"; bit (veq s (mk_set (List.rev vs)) && veq (mk_set (List.rev vs)) s)];
+       L [A "eqdup"; bit (veq s (mk_set (vs @ vs)) && veq (mk_set (vs @ vs)) s)];
+       L (A "eq" :: List.concat_map (fun a -> List.map (fun b -> bit (veq a b)) ps) ps);
+       L [A "consistent"; A "1"]; L [A "immutable"; A "1"]]
+  | _ -> failwith "valops payload"
+
+let run_setorder payload =
+  match payload with
+  | [vals] ->
+    (match marshal_order (raw_values vals) with
+     | Some l -> L (A "order" :: List.map sx_of_value l)
+     | None -> L [A "model-out-of-fuel"])
+  | _ -> failwith "setorder payload"
+
+let run_scalar payload =
+  match payload with
+  | [L [A "parse"; A ty; A s]] ->
+    let str = str_of_atom s in
+    let some f = function Some z -> L [A "ok"; sx_of_value (f z)] | None -> L [A "err"] in
+    (match ty with
+     | "decimal" -> some (fun z -> VDecimal z) (parse_decimal str)
+     | "duration" -> some (fun z -> VDuration z) (parse_duration str)
+     | "datetime" -> some (fun z -> VDatetime z) (parse_datetime str)
+     | "ip" -> some (fun ((v6, a), p) -> VIP (v6, a, p)) (parse_ip str)
+     | _ -> failwith "scalar type")
+  | [L [A "print"; v]] ->
+    (match value_of_sx v with
+     | VDecimal z -> L [A "s"; A (atom_of_str (print_decimal z))]
+     | VDuration z -> L [A "s"; A (atom_of_str (print_duration z))]
+     | VDatetime z -> L [A "s"; A (atom_of_str (print_datetime z))]
+     | _ -> L [A "unsupported"; A "print"])
+  | [L [A "newdecimal"; A i; A e]] ->
+    (match new_decimal_exp (cz_of_string i) (cz_of_string e) with
+     | Some z -> L [A "ok"; sx_of_value (VDecimal z)]
+     | None -> L [A "err"])
+  | _ -> failwith "scalar payload"
+
 (* ---- pshist: (ops op...) ---- *)
 let pool_eff h = match int_of_cz h with 1 | 3 -> Forbid | _ -> Permit
 let pool_ev h = match int_of_cz h with 0 | 1 | 4 -> OTrue | 2 -> OFalse | _ -> OErr
@@ -338,5 +389,8 @@ let run_case kind payload =
   | "partial" -> run_partial payload
   | "psound" -> run_psound payload
   | "batch" -> run_batch payload
+  | "valops" -> run_valops payload
+  | "setorder" -> run_setorder payload
+  | "scalar" -> run_scalar payload
   | "foldexpr" -> run_foldexpr payload
   | k -> L [A "unsupported"; A k]
